@@ -2,7 +2,15 @@
 server `RPCSession` on a fake transport receives a batch / single message; its handlers are
 gated and released in the completion order of the case; what is *written to the transport* after
 each release is decoded and judged by the same oracle and compared with the same model as the
-connection-level check."""
+connection-level check.
+
+`max_response_size` changing while requests are in flight (`lims` / `lim` of the case, see
+harness/c02.py): between two releases the limit is changed either by ANOTHER REQUEST'S HANDLER
+(`via` = 'handler': a `set_limit` request is sent to the session while the batch members are
+suspended in `handle_request`; its handler assigns `self.connection.max_response_size` and is
+answered at once - the seeded C02-r3m3 history) or by the operator (`via` = 'attr': the public
+attribute of `session.connection` is assigned).  The `set_limit` request is an ordinary request
+of the session: it must be answered exactly once under its id, too."""
 import asyncio
 import json
 import logging
@@ -10,8 +18,10 @@ import logging
 from harness import vloop
 from harness.c02_util import PROTO_CLASS, make_session, settle
 from harness.c02 import (_prepare, batch_oracle, classify_member, decode_entry, impl_text,
-                         model_line, normalise_model, random_case, result_for, single_cases,
-                         single_oracle)
+                         limit_changes, limits_of, model_line, normalise_model, random_case,
+                         result_for, setlim_answer_ok, single_cases, single_oracle)
+
+SETLIM_ID = 880088
 from tools.facts.common import fresh_import
 
 
@@ -40,6 +50,11 @@ async def run_scenario(mods, case):
             return c
 
         async def handle_request(self, request):
+            if request.method == 'set_limit':
+                # another request's handler changes the public attribute while the members of
+                # the batch are suspended below
+                self.connection.max_response_size = request.args[0]
+                return True
             m = request.args[0]
             if isinstance(request, jr.Notification):
                 seen_notifs.append(m)
@@ -54,8 +69,31 @@ async def run_scenario(mods, case):
 
     logging.disable(logging.CRITICAL)
     p, transport, session = make_session(rawsocket, Server, session_mod.SessionKind.SERVER)
+    style = case.get('inforce', case['proto'])
+    state = {'lim': case['max'], 'setlim_bad': 0}
+
+    async def change_limit(lim):
+        """make `lim` the limit in force (nothing happens if it already is)"""
+        if lim == state['lim']:
+            return []
+        state['lim'] = lim
+        if case.get('via', 'handler') == 'attr':
+            session.connection.max_response_size = lim
+            return []
+        msg = {'method': 'set_limit', 'params': [lim], 'id': SETLIM_ID}
+        if style == 'v2':
+            msg['jsonrpc'] = '2.0'
+        p.data_received(json.dumps(msg).encode() + b'\n')
+        await settle(10)
+        out = take(transport)
+        mine = [o for o in out if isinstance(o[0], dict) and o[0].get('id') == SETLIM_ID]
+        if len(mine) != 1 or not setlim_answer_ok(jr, style, mine[0][0], SETLIM_ID, lim):
+            state['setlim_bad'] += 1
+        return [o for o in out if o not in mine]       # anything else written meanwhile
+
     if 'single' in case:
-        rec = await _single(jr, p, transport, session, case, gates, seen_notifs)
+        rec = await _single(jr, p, transport, session, case, gates, seen_notifs, change_limit)
+        rec['setlim_bad'] = state['setlim_bad']
         logging.disable(logging.NOTSET)
         return rec
     rec = {'raised': None, 'calls': [], 'lens': [], 'exc': None, 'items': None, 'rawlens': [],
@@ -69,9 +107,10 @@ async def run_scenario(mods, case):
         rec['extra'] += len(first) - 1
     inforce = getattr(jr, PROTO_CLASS[case.get('inforce', case['proto'])])
     kinds = [classify_member(case.get('inforce', case['proto']), m) for m in case['members']]
-    for m in case['order']:
+    for m, lim in zip(case['order'], limits_of(case)):
         result, _ = result_for(jr, m, m in errs)
         rec['lens'].append(len(inforce.response_message(result, kinds[m][1])))
+        rec['extra'] += len(await change_limit(lim))      # a batch message here is one too early
         gates.setdefault(m, asyncio.Event()).set()
         await settle(10)
         out = take(transport)
@@ -84,12 +123,13 @@ async def run_scenario(mods, case):
     nnotif = sum(1 for k in kinds if k[0] == 'notif')
     rec['notifs_handled'] = len(seen_notifs)
     rec['notifs_expected'] = nnotif
+    rec['setlim_bad'] = state['setlim_bad']
     await session.close()
     logging.disable(logging.NOTSET)
     return rec
 
 
-async def _single(jr, p, transport, session, case, gates, seen_notifs):
+async def _single(jr, p, transport, session, case, gates, seen_notifs, change_limit):
     """one request / notification through the serving session: what is written"""
     rec = {'exc': None, 'reply': None, 'len': 0, 'items': None, 'raised': None, 'extra': 0}
     p.data_received(json.dumps(case['single']).encode() + b'\n')
@@ -103,6 +143,7 @@ async def _single(jr, p, transport, session, case, gates, seen_notifs):
         inforce = getattr(jr, PROTO_CLASS[case.get('inforce', case['proto'])])
         result, _ = result_for(jr, 0, case.get('err'))
         rec['len'] = len(inforce.response_message(result, kind[1]))
+        rec['extra'] += len(await change_limit(limits_of(case)[0]))
         gates.setdefault(0, asyncio.Event()).set()
         await settle(10)
         out = [m for m, _n in take(transport)]
@@ -121,16 +162,20 @@ def _evaluate(ctx, cases, res):
     mods = (fresh_import(ctx.repo, 'aiorpcx.jsonrpc'), fresh_import(ctx.repo, 'aiorpcx.rawsocket'),
             fresh_import(ctx.repo, 'aiorpcx.session'))
 
-    async def go():
+    async def go(chunk):
         out = []
-        for c in cases:
+        for c in chunk:
             _prepare(c)
             try:
                 out.append(await run_scenario(mods, c))
             except (vloop.Deadlock, vloop.Livelock) as e:
                 out.append({'hang': type(e).__name__})
         return out
-    recs = vloop.run(go())
+    # the gated scenarios never advance the virtual clock: a fresh loop per chunk keeps the
+    # loop's no-progress counter (Livelock detection) about one chunk, not about the whole run
+    recs = []
+    for k in range(0, len(cases), 200):
+        recs += vloop.run(go(cases[k:k + 200]))
     lines, idx = [], []
     for k, (c, rec) in enumerate(zip(cases, recs)):
         sc = dict(c, layer='session')
@@ -138,6 +183,10 @@ def _evaluate(ctx, cases, res):
             res.violation('c02:session-hang', sc, rec['hang'])
             continue
         v = single_oracle(c, rec) if 'single' in c else batch_oracle(c, rec)
+        if not v and rec.get('setlim_bad'):
+            v = ('c02:reply-count', 'a set_limit request sent while other requests were in flight '
+                                    'was not answered exactly once with its result')
+        res.count('session_limit_changed_in_flight', limit_changes(c))
         if v:
             res.violation(v[0] if v[0].startswith('c02:notif-invalid') else v[0] + '@session',
                           sc, v[1], impl=impl_text(c, rec))
@@ -172,10 +221,53 @@ def run(ctx, res):
         {'proto': 'v2', 'max': 0, 'members': [v2(0), v2(1)], 'order': [], 'errs': []},
         {'proto': 'v2', 'max': 60, 'members': [v2(0, id=1), v2(1, id=1), v2(2, id='a')],
          'order': [2, 0, 1], 'errs': [1]},
-    ] + cases
+    ] + limit_scenarios(jr) + cases
     singles = single_cases(jr)
     cases += singles[::(3 if ctx.tier == 'thorough' else 9)]
+    # every third of the singles whose limit changes between receipt and result (all of them at
+    # depth), alternately through another request's handler and through the attribute
+    moving = [dict(c, via=('handler', 'attr')[k % 2])
+              for k, c in enumerate(x for x in singles if 'lim' in x and x['proto'] != 'auto')]
+    cases += moving if is_deep(ctx) else moving[::3]
+    for k, c in enumerate(cases):
+        if 'lims' in c and 'via' not in c:
+            c['via'] = ('handler', 'attr')[k % 3 == 2]
     _evaluate(ctx, cases, res)
+
+
+def limit_scenarios(jr):
+    """the limit is changed by another request's handler (and by the operator) while the members
+    of a batch are suspended in `handle_request`: the seeded C02-r3m3 history (received while
+    unlimited, lowered, then an oversized result is supplied) and its relatives - raised, lowered
+    between two supplies, 0 <-> positive, several times; for v2 and Loose"""
+    from harness.c02 import PROTO_CLASS, WIRE
+    out = []
+    for proto in ('v2', 'loose'):
+        cls = getattr(jr, PROTO_CLASS[proto])
+
+        def req(m, idv):
+            p = {'method': 'm', 'params': [m], 'id': idv}
+            if proto == 'v2':
+                p['jsonrpc'] = '2.0'
+            return p
+        for members, order in (([req(0, 1)], [0]), ([req(0, 1), req(1, 2)], [1, 0]),
+                               ([req(0, 7), {'method': 'm', 'params': [1]}, req(2, 7)], [0, 2]),
+                               ([5, req(1, 'a'), req(2, 'b')], [2, 1])):
+            if proto == 'v2':
+                members = [dict(m, jsonrpc='2.0') if isinstance(m, dict) else m for m in members]
+            lens = [len(cls.response_message(result_for(jr, m, False)[0], members[m]['id']))
+                    for m in order]
+            run, pts = 0, []
+            for l in lens:
+                run += l + WIRE['inc']
+                pts.append((0, l - 1, run - 1, run))
+            import itertools
+            for a in (0, min(lens) - 1, run):
+                for lims in itertools.product(*pts):
+                    for via in ('handler', 'attr'):
+                        out.append({'proto': proto, 'max': a, 'members': members, 'order': order,
+                                    'errs': [], 'lims': list(lims), 'via': via})
+    return out
 
 
 def replay(ctx, case, res):
